@@ -113,6 +113,9 @@ func genKeyID(repo string, w *bytes.Buffer) error {
 	}
 	fmt.Fprintf(w, "Definition sanity_versions : list N := %s.\n\n", tutil.CoqList(vs))
 
+	// Structural facts about Unmarshal and Marshal: which checks they make, on what, in which order.
+	emitShape(w, f)
+
 	for _, c := range []struct{ coq, gon string }{
 		{"default_version", "DefaultVersion"},
 		{"default_touch", "DefaultTouch"}, {"never_touch", "NeverTouch"},
@@ -126,4 +129,75 @@ func genKeyID(repo string, w *bytes.Buffer) error {
 		fmt.Fprintf(w, "Definition %s : Z := %d%%Z.\n", c.coq, v)
 	}
 	return nil
+}
+
+// emitShape records, as named booleans, the mechanism the C05 property is
+// anchored in: Unmarshal decodes the text into the struct, looks the version up
+// in requiredKeysByVersion, decodes the SAME bytes into a map and requires
+// every listed key to be present in that map, then looks up and runs the
+// version's sanity checker; Marshal runs the version's sanity checker before
+// encoding.
+func emitShape(w *bytes.Buffer, f *ast.File) {
+	type fact struct {
+		name string
+		ok   bool
+	}
+	var facts []fact
+	add := func(n string, ok bool) { facts = append(facts, fact{n, ok}) }
+	stmtIndex := func(fd *ast.FuncDecl, pred func(s ast.Stmt) bool) int {
+		if fd == nil {
+			return -1
+		}
+		for i, s := range fd.Body.List {
+			if pred(s) {
+				return i
+			}
+		}
+		return -1
+	}
+	has := func(s ast.Stmt, sub string) bool { return strings.Contains(tutil.Src(s), sub) }
+	um := tutil.FindFunc(f, "Unmarshal")
+	iStruct := stmtIndex(um, func(s ast.Stmt) bool { return has(s, "json.Unmarshal(kidBytes, kid)") })
+	iReq := stmtIndex(um, func(s ast.Stmt) bool { return has(s, "requiredKeysByVersion[kid.Version]") })
+	iMap := stmtIndex(um, func(s ast.Stmt) bool { return has(s, "json.Unmarshal(kidBytes, &m)") })
+	iMake := stmtIndex(um, func(s ast.Stmt) bool { return has(s, "m := make(map[string]interface{})") })
+	iLoop := stmtIndex(um, func(s ast.Stmt) bool {
+		rs, ok := s.(*ast.RangeStmt)
+		if !ok || tutil.Src(rs.X) != "requiredKeys" || len(rs.Body.List) != 1 {
+			return false
+		}
+		is, ok := rs.Body.List[0].(*ast.IfStmt)
+		if !ok || is.Init == nil || tutil.Src(is.Init) != "_, ok := m["+tutil.Src(rs.Value)+"]" || tutil.Src(is.Cond) != "!ok" {
+			return false
+		}
+		return len(is.Body.List) == 1 && strings.HasPrefix(tutil.Src(is.Body.List[0]), "return nil,")
+	})
+	iSan := stmtIndex(um, func(s ast.Stmt) bool { return has(s, "sanityCheckerByVersion[kid.Version]") })
+	iRun := stmtIndex(um, func(s ast.Stmt) bool {
+		is, ok := s.(*ast.IfStmt)
+		return ok && is.Init != nil && tutil.Src(is.Init) == "err := sanityChecker(kid)" && tutil.Src(is.Cond) == "err != nil" &&
+			len(is.Body.List) == 1 && strings.HasPrefix(tutil.Src(is.Body.List[0]), "return nil,")
+	})
+	add("unmarshal_decodes_struct", iStruct >= 0)
+	add("unmarshal_looks_up_required_keys_by_version", iReq > iStruct && iStruct >= 0)
+	add("unmarshal_decodes_same_bytes_into_map", iMake >= 0 && iMap > iMake)
+	add("unmarshal_requires_every_key_in_map", iLoop > iMap && iMap >= 0 && iLoop > iReq)
+	add("unmarshal_runs_sanity_checker_of_version", iSan >= 0 && iRun > iSan && iRun > iLoop)
+	mm := tutil.FindMethod(f, "KeyID", "Marshal")
+	jSan := stmtIndex(mm, func(s ast.Stmt) bool { return has(s, "sanityCheckerByVersion[kid.Version]") })
+	jRun := stmtIndex(mm, func(s ast.Stmt) bool {
+		is, ok := s.(*ast.IfStmt)
+		return ok && is.Init != nil && tutil.Src(is.Init) == "err := sanityChecker(kid)" && tutil.Src(is.Cond) == "err != nil" &&
+			len(is.Body.List) == 1 && strings.HasPrefix(tutil.Src(is.Body.List[0]), "return \"\",")
+	})
+	jEnc := stmtIndex(mm, func(s ast.Stmt) bool { return has(s, "json.Marshal(kid)") })
+	add("marshal_runs_sanity_checker_before_encoding", jSan >= 0 && jRun > jSan && jEnc > jRun)
+	var rows []string
+	for _, ft := range facts {
+		rows = append(rows, fmt.Sprintf("(%s, %v)", tutil.CoqText(ft.name), ft.ok))
+		if !ft.ok {
+			fmt.Printf("translator: KeyIdGen: unrecognised source shape: fact %s does not hold\n", ft.name)
+		}
+	}
+	fmt.Fprintf(w, "Definition keyid_mechanism_facts : list (str * bool) := %s.\n\n", tutil.CoqList(rows))
 }
